@@ -762,3 +762,10 @@ for _v in list(V):
     if _v.get("transform") and _v["transform"][0] == "rename_locals":
         V.append(dict(id=f"{_v['prop'].lower()}-s-return-via-temp:{_v['transform'][2]}", prop=_v["prop"], kind="silent",
                       transform=("return_via_temp", _v["transform"][1], _v["transform"][2])))
+
+
+# `if c: return X` + rest  ->  `if c: return X else: rest` in the anchor functions (behaviour-preserving)
+for _v in list(V):
+    if _v.get("transform") and _v["transform"][0] == "rename_locals":
+        V.append(dict(id=f"{_v['prop'].lower()}-s-else-after-return:{_v['transform'][2]}", prop=_v["prop"], kind="silent",
+                      transform=("else_after_return", _v["transform"][1], _v["transform"][2])))
